@@ -11,7 +11,7 @@ ids default to every seeded/C* directory."""
 import json, os, subprocess, sys, glob, shutil, threading, queue
 os.chdir("/verif")
 args = sys.argv[1:]
-out = "seeded/RESULTS.json"; own_only = False; binp = "./bin/mverif"; jobs = 4; merge = False
+out = "seeded/RESULTS.json"; own_only = False; binp = "./bin/mverif"; jobs = 4; merge = False; base = "seeded"
 ids = []
 while args:
     a = args.pop(0)
@@ -20,8 +20,9 @@ while args:
     elif a == "--bin": binp = args.pop(0)
     elif a == "--jobs": jobs = int(args.pop(0))
     elif a == "--merge": merge = True
+    elif a == "--benign": base = "benign"; out = "benign/RESULTS.json"
     else: ids.append(a)
-ids = ids or sorted(os.path.basename(d) for d in glob.glob("seeded/C*") if os.path.isdir(d))
+ids = ids or sorted(os.path.basename(d) for d in glob.glob(base + ("/C*" if base == "seeded" else "/B*")) if os.path.isdir(d))
 claimed = [c["property_id"] for c in json.load(open("MANIFEST.json"))["checks"]]
 results = json.load(open(out)) if (merge and os.path.exists(out)) else {}
 lock = threading.Lock()
@@ -37,9 +38,9 @@ def worker(k):
         while True:
             try: mid = q.get_nowait()
             except queue.Empty: break
-            d = f"seeded/{mid}"
+            d = f"{base}/{mid}"
             meta = json.load(open(f"{d}/meta.json"))
-            own = meta["property"]
+            own = meta.get("property", "")
             r = subprocess.run(["git", "-C", wt, "apply", os.path.abspath(f"{d}/patch.diff")], capture_output=True, text=True)
             if r.returncode != 0:
                 with lock:
@@ -63,7 +64,13 @@ def worker(k):
                 subprocess.run(["git", "-C", wt, "reset", "-q", "--hard", "HEAD"], check=True)
                 subprocess.run(["git", "-C", wt, "clean", "-fdq"], check=True)
             with lock:
-                if any("analyser: load" in l for v in fired.values() for l in v):
+                if base == "benign":
+                    results[mid] = {"applies": True, "silent": not fired, "fired": fired}
+                    print(mid, "silent" if not fired else "REPORTED by " + ",".join(fired), flush=True)
+                    for kk, v in fired.items():
+                        for l in v[:2]:
+                            print("     ", kk, l[:230], flush=True)
+                elif any("analyser: load" in l for v in fired.values() for l in v):
                     results[mid] = {"applies": False, "reason": "patched tree does not type-check"}
                     print(mid, "PATCHED TREE DOES NOT TYPE-CHECK", flush=True)
                 else:
@@ -80,5 +87,8 @@ ts = [threading.Thread(target=worker, args=(k,)) for k in range(jobs)]
 for t in ts: t.start()
 for t in ts: t.join()
 json.dump(results, open(out, "w"), indent=1, sort_keys=True)
-n = sum(1 for v in results.values() if v.get("caught_by_own_property_check"))
-print("own-caught", n, "of", len(results))
+if base == "benign":
+    print("silent", sum(1 for v in results.values() if v.get("silent")), "of", len(results))
+else:
+    n = sum(1 for v in results.values() if v.get("caught_by_own_property_check"))
+    print("own-caught", n, "of", len(results))
